@@ -27,7 +27,7 @@ ASSUMPTIONS = [
 ]
 
 
-def scenario() -> Any:
+def scenario(big: bool = False) -> Any:
     def fin(d: Dict[str, Any]) -> Dict[str, Any]:
         d["msgs"] = cm.sort_msgs(d["msgs"])
         if not d.pop("has_stop"):
@@ -42,18 +42,18 @@ def scenario() -> Any:
     msg = cm.message(kinds=("async", "async", "async", "async", "sync", "bad", "unknown"),
                      acks=("sync", "async", "future", "deferred"), timeouts=(None, None, None, 0.3, 1, "0.35"), cleanups=(0, 0, 0, 0.2))
     return st.fixed_dictionaries({
-        "A": st.integers(1, 4), "P": st.integers(0, 3), "N": st.sampled_from([None, None, None, 1, 2, 3, 4]),
+        "A": st.integers(1, 6 if big else 4), "P": st.integers(0, 6 if big else 3), "N": st.sampled_from([None, None, None, 1, 2, 3, 4] + ([6, 9] if big else [])),
         "ack_type": st.sampled_from(["when_received", "when_executed", "when_saved"]),
-        "msgs": st.lists(msg, min_size=1, max_size=8),
+        "msgs": st.lists(msg, min_size=1, max_size=14 if big else 8),
         "stop": cm.times(), "has_stop": st.sampled_from([False, False, True]),
-        "fail_saves": st.sets(st.integers(0, 7), max_size=3),
+        "fail_saves": st.sets(st.integers(0, 13 if big else 7), max_size=3),
         "save_latency": st.sampled_from([0.0, 0.0, 0.05, 0.3]),
     }).map(fin)
 
 
 def parts(tier: str) -> List[Part]:
     if tier == "thorough":
-        return [Part("scenarios", "given", shards=16, examples=6000, strategy=scenario, soft_deadline_s=1500)]
+        return [Part("scenarios", "given", shards=16, examples=15000, strategy=lambda: scenario(True), soft_deadline_s=3000)]
     return [Part("scenarios", "given", shards=8, examples=700, strategy=scenario, soft_deadline_s=120)]
 
 
